@@ -41,6 +41,9 @@ type C13Case struct {
 	PermReact []string `json:"perm_reactions"` // cycled: ok | 400 | 403 | 438 | silence | delay
 	BindReact []string `json:"bind_reactions"` // cycled
 	Reader    bool     `json:"reader"`         // an application goroutine keeps calling ReadFrom
+	// ReuseAddr: the application keeps one *net.UDPAddr variable and re-fills it for every write
+	// (what it passes to WriteTo is its own to change afterwards)
+	ReuseAddr bool `json:"reuse_addr,omitempty"`
 	Ops       []Op13   `json:"ops"`
 }
 
@@ -398,6 +401,7 @@ func runC13Inner(c *C13Case) (res c13Result) { //nolint:cyclop,gocyclo,maintidx
 	} else {
 		close(readerDone)
 	}
+	scratchAddr := &net.UDPAddr{IP: make(net.IP, 4)}
 	want := map[string][][]byte{}    // what the application handed to WriteTo successfully, per peer
 	relayed := map[string][][]byte{} // what the scripted server relayed toward the client, per peer
 	queued := 0
@@ -427,6 +431,7 @@ func runC13Inner(c *C13Case) (res c13Result) { //nolint:cyclop,gocyclo,maintidx
 			type wres struct {
 				payload []byte
 				dst     *net.UDPAddr
+				dstStr  string
 				n       int
 				err     error
 			}
@@ -442,6 +447,13 @@ func runC13Inner(c *C13Case) (res c13Result) { //nolint:cyclop,gocyclo,maintidx
 					dst = peer13(1 + (op.Peer+i)%5)
 					peersUsed[1+(op.Peer+i)%5] = true
 				}
+				if w == 1 && c.ReuseAddr {
+					scratchAddr.IP, scratchAddr.Port = append(scratchAddr.IP[:0], dst.IP.To4()...), dst.Port
+					out[i].dstStr = dst.String()
+					dst = scratchAddr
+				} else {
+					out[i].dstStr = dst.String()
+				}
 				out[i].dst = dst
 				wg.Add(1)
 				go func(i int) {
@@ -456,7 +468,7 @@ func runC13Inner(c *C13Case) (res c13Result) { //nolint:cyclop,gocyclo,maintidx
 					if out[i].n != len(out[i].payload) {
 						fail("writeto-short", "%s: WriteTo returned %d for %d bytes without error", ctx, out[i].n, len(out[i].payload))
 					}
-					want[out[i].dst.String()] = append(want[out[i].dst.String()], out[i].payload)
+					want[out[i].dstStr] = append(want[out[i].dstStr], out[i].payload)
 				}
 			}
 		case "manywrites":
@@ -796,6 +808,7 @@ func genC13(rt *rapid.T) *C13Case {
 	c.BindReact = reacts.Draw(rt, "bind")
 	c.Reader = rapid.IntRange(0, 3).Draw(rt, "reader") > 0
 	nops := rapid.IntRange(2, 20).Draw(rt, "nops")
+	c.ReuseAddr = rapid.IntRange(0, 2).Draw(rt, "reuseAddr") == 0
 	for i := 0; i < nops; i++ {
 		if c.TCP {
 			c.Ops = append(c.Ops, Op13{Kind: "attempts", Burst: rapid.SampledFrom([]int{1, 2, 9, 10, 11, 12, 40}).Draw(rt, "burst")})
